@@ -17,6 +17,7 @@ import (
 	"bytes"
 	"errors"
 	"fmt"
+	"strings"
 	"testing"
 	"testing/synctest"
 	"time"
@@ -73,8 +74,11 @@ func genC03Cli(r *hysim.Rand, tier string) *hysim.Script {
 			sc.Ops = append(sc.Ops, hysim.Op{K: "close", A: []int64{int64(r.Range(1, nsess))}})
 		case p < 78:
 			sc.Ops = append(sc.Ops, hysim.Op{K: "newudp"})
-		case p < 82:
+		case p < 81:
 			sc.Ops = append(sc.Ops, hysim.Op{K: "limit", A: []int64{int64(r.Pick(0, 40, 64, 300, 1200))}})
+		case p < 83:
+			// the server sends one fragmented message to each of two sessions, fragments interleaved on the wire
+			sc.Ops = append(sc.Ops, hysim.Op{K: "fragx2", A: []int64{int64(r.Range(1, nsess)), int64(r.Range(1, nsess)), int64(r.Pick(300, 900, 1700)), int64(r.Pick(100, 300, 500)), int64(r.Pick(0, 0, 1))}})
 		case p < 86:
 			// every open session sends at the same time (one sender task per session)
 			sc.Ops = append(sc.Ops, hysim.Op{K: "sendburst", A: []int64{int64(r.Range(1, 4)), int64(r.Pick(1, 40, 700, 1500, 3000))}})
@@ -100,6 +104,7 @@ type c03Reader struct {
 	addrs  []string
 	n      int
 	closed bool
+	honest []string // tagged messages of the honest interleaving op, as received
 	done   bool
 }
 
@@ -199,6 +204,9 @@ func (w *c03Cli) newSession(m *udpSessionManager) *c03Reader {
 				s += int(b)
 			}
 			rd.n++
+			if bytes.HasPrefix(data, []byte("HONEST:")) {
+				rd.honest = append(rd.honest, addr+"|"+string(data))
+			}
 			if rd.id == w.canaryID {
 				rd.got = append(rd.got, append([]byte(nil), data...))
 				rd.addrs = append(rd.addrs, addr)
@@ -221,6 +229,7 @@ func execC03Cli(x *hysim.Run) {
 	// later NewUDP sessions get ids above the canary's; hostile session indexes address 1..nsess and those
 	other := []byte{0, 0, 0, 1, 0, 9, 1, 3, 5, 'o', '.', 's', ':', '1', 0xaa, 0xbb}
 	pid := uint16(100)
+	fx := 0 // honest interleaving exchanges so far
 	mapSID := func(v int64) uint32 {
 		s := uint32(v)
 		if s == w.canaryID {
@@ -332,6 +341,55 @@ func execC03Cli(x *hysim.Run) {
 				}
 				x.Probe("session-closed-under-traffic")
 			}
+		case "fragx2":
+			ra, rb := w.readers[uint32(op.Arg(0))], w.readers[uint32(op.Arg(1))]
+			if ra == nil || rb == nil || ra == rb || ra.closed || rb.closed || ra.done || rb.done || ra.paused || rb.paused {
+				break
+			}
+			hysim.Settle()
+			fx++
+			per := mut.Clamp(op.Arg(3), 50, 1000)
+			pidA := uint16(0xF000 + fx*2)
+			pidB := pidA + 1
+			if op.Arg(4) == 1 {
+				pidB = pidA // independently drawn random ids may coincide
+			}
+			var trains [2][][]byte
+			var want [2]string
+			for k, rd := range []*c03Reader{ra, rb} {
+				addr := fmt.Sprintf("honest%d.sim:%d", k, 9000+fx)
+				data := append([]byte(fmt.Sprintf("HONEST:%d:%d:", fx, rd.id)), mut.Fill(mut.Clamp(op.Arg(2), 100, 3000), byte(7*fx+k))...)
+				want[k] = addr + "|" + string(data)
+				m := &protocol.UDPMessage{SessionID: rd.id, PacketID: []uint16{pidA, pidB}[k], FragCount: 1, Addr: addr, Data: data}
+				for _, f := range frag.FragUDPMessage(m, m.HeaderSize()+per) {
+					buf := make([]byte, f.Size())
+					f.Serialize(buf)
+					trains[k] = append(trains[k], buf)
+				}
+			}
+			x.Ev("honest interleaving #%d: sessions %d and %d, %d+%d fragments, packet ids %d/%d", fx, ra.id, rb.id, len(trains[0]), len(trains[1]), pidA, pidB)
+			for i := 0; i < len(trains[0]) || i < len(trains[1]); i++ {
+				for k := 0; k < 2; k++ {
+					if i < len(trains[k]) {
+						w.push(trains[k][i], false)
+					}
+				}
+			}
+			hysim.Settle()
+			for k, rd := range []*c03Reader{ra, rb} {
+				found := false
+				for _, g := range rd.honest {
+					if g == want[k] {
+						found = true
+					} else if strings.HasPrefix(g, strings.SplitN(want[k], "|", 2)[0]+"|HONEST:"+fmt.Sprint(fx)+":") {
+						x.Violate("reassembled-never-sent", "session %d received a message that is not the one the server sent it in the interleaved exchange #%d (%d bytes instead of %d)", rd.id, fx, len(g), len(want[k]))
+					}
+				}
+				if !found && !x.Violated() && !rd.done && !rd.closed {
+					x.Violate("fragmented-message-lost", "two sessions each got one fragmented message, fragments interleaved on the wire, nothing lost: session %d never received its %d bytes (sessions %d/%d, packet ids %d/%d)", rd.id, len(want[k]), ra.id, rb.id, pidA, pidB)
+				}
+			}
+			x.Probe("honest-interleaved-fragments")
 		case "sendburst":
 			cnt, size := mut.Clamp(op.Arg(0), 1, 8), mut.Clamp(op.Arg(1), 1, 4000)
 			done := make(chan struct{}, 16)
